@@ -370,6 +370,8 @@ def run(idx: Index, rep: Report, tier: str):
         C05.decide_alpha_formula(rep, rule, fn, st)
     check_active_electron_split(idx, rep)
     check_derived_molecule_sharing(idx, rep)
+    # the reference determinant whose expectation value is the mean-field energy: occupations -> vector -> X gates, every (electrons, spin) incl. no alpha electrons (shared with C05)
+    C05.check_vector_to_circuit(idx, rep)
     # C04.c factors
     rule = "K9.interaction-operator"
     h = idx.function(f"{MOL}::SecondQuantizedMolecule._get_fermionic_hamiltonian")
@@ -455,7 +457,7 @@ def check_fci_sector(idx: Index, rep: Report):
             rep.decide(ok, rule, m, c, text=f"{mname}: {f}(..., {norm(a)}){' under spin == 0' if guarded else ''}",
                        what="the CI object always works in the target (n_alpha, n_beta) sector: it gets the pair, or the bare count only where spin == 0 is established",
                        reason=f"{f} receives `{norm(a)}` without an enclosing `spin == 0` test: for spin >= 2 pyscf then solves the lowest-|Sz| sector, not the target one")
-    rep.floor("CI calls with an electron argument", n, 6)
+    rep.floor("CI calls with an electron argument", n, 4)
     # which CI implementation searches the sector: pyscf's direct_spin0 works with spin-symmetric (singlet) CI vectors only, so the Sz = 0 component of a
     # triplet ground state (C, CH2, O2) is outside its search space; direct_spin1 / direct_uhf / direct_nosym search the whole (n_alpha, n_beta) sector
     FULL = {"direct_spin1", "direct_uhf", "direct_nosym", "direct_spin1_symm", "selected_ci", "direct_spin1_cyl_sym"}
